@@ -281,6 +281,9 @@ def placements(tier, seed):
     return out
 
 
+THOROUGH_KEEP = {'*': 0.75}      # see vf/runner.py (time: about 10 minutes per thorough tier)
+
+
 def cases(tier, seed):
     out = []
     for i, (name, spec) in enumerate(placements(tier, seed)):
